@@ -2487,15 +2487,23 @@ class sptensor:
 
             # Renumber the subscripts
             addsubs = tt_irenumber(value, self.shape, key)
+            addvals = value.vals
+            if addsubs.size > 0:
+                # an index repeated inside a key list addresses one entry: the last
+                # value written to it is kept (as for numpy arrays)
+                _, last = np.unique(addsubs[::-1], axis=0, return_index=True)
+                keep = np.sort(addsubs.shape[0] - 1 - last)
+                addsubs = addsubs[keep]
+                addvals = addvals[keep]
             if newsubs.size > 0 and addsubs.size > 0:
                 self.subs = np.vstack((newsubs, addsubs))
-                self.vals = np.vstack((newvals, value.vals))
+                self.vals = np.vstack((newvals, addvals))
             elif newsubs.size > 0:
                 self.subs = newsubs
                 self.vals = newvals
             elif addsubs.size > 0:
                 self.subs = addsubs
-                self.vals = value.vals.copy()
+                self.vals = addvals.copy()
             else:
                 self.subs = np.array([], ndmin=2, dtype=int)
                 self.vals = np.array([], ndmin=2)
